@@ -79,10 +79,16 @@ binops!(m128, and__bvd_f82, or__bvd_f82, xor__bvd_f82, add__bvd_f82, sub__bvd_f8
 binops!(m128, and__bvd_f642, or__bvd_f642, xor__bvd_f642, add__bvd_f642, sub__bvd_f642, mul__bvd_f642, cmp__bvd_f642, Bvd, F642);
 binops!(m128, and__bv_bv, or__bv_bv, xor__bv_bv, add__bv_bv, sub__bv_bv, mul__bv_bv, cmp__bv_bv, Bv, Bv);
 
+/// shift amounts: small, small + 2^32, small + 2^64 (does not fit usize), or arbitrary
+pub fn shift_amount<S: Src>(s: &mut S) -> u128 {
+    let small = s.upto(140) as u128;
+    match s.upto(3) { 0 => small, 1 => small + (1u128 << 32), 2 => small + (1u128 << 64), _ => s.u128() }
+}
+
 /// unary / single-vector families
 macro_rules! unops { ($mm:ident, $shl:ident, $shr:ident, $shlin:ident, $shrin:ident, $rot:ident, $cnt:ident, $edit:ident, $slice:ident, $not:ident, $A:ty) => {
     pub fn $shl<S: Src>(s: &mut S) {
-        let a = <$A as Raw>::gen(s); let k = s.u128();
+        let a = <$A as Raw>::gen(s); let k = shift_amount(s);
         let (va, la) = ($mm::of(a.val()), a.len());
         let r = a.clone() << k;
         let e = if k >= 128 { 0 } else { $mm::shl(va, k as usize) & $mm::mask(la) };
@@ -92,7 +98,7 @@ macro_rules! unops { ($mm:ident, $shl:ident, $shr:ident, $shlin:ident, $shrin:id
         assert!(r8.wf()); assert!($mm::of(r8.val()) == $mm::shl(va, k8 as usize) & $mm::mask(la));
     }
     pub fn $shr<S: Src>(s: &mut S) {
-        let a = <$A as Raw>::gen(s); let k = s.u128();
+        let a = <$A as Raw>::gen(s); let k = shift_amount(s);
         let (va, la) = ($mm::of(a.val()), a.len());
         let r = a.clone() >> k;
         let e = if k >= 128 { 0 } else { $mm::shr(va, k as usize) };
